@@ -17,7 +17,6 @@ package query
 import (
 	"context"
 	"fmt"
-	"math"
 	"time"
 
 	"github.com/blevesearch/bleve/v2/mapping"
@@ -133,8 +132,8 @@ func (q *DateRangeStringQuery) Searcher(ctx context.Context, i index.IndexReader
 }
 
 func (q *DateRangeStringQuery) parseEndpoints(startTime, endTime time.Time) (*float64, *float64, error) {
-	min := math.Inf(-1)
-	max := math.Inf(1)
+	// an end that is not given stays nil, which means unbounded
+	var min, max *float64
 
 	if startTime.IsZero() && endTime.IsZero() {
 		return nil, nil, fmt.Errorf("date range query must specify at least one of start/end")
@@ -146,7 +145,8 @@ func (q *DateRangeStringQuery) parseEndpoints(startTime, endTime time.Time) (*fl
 			return nil, nil, fmt.Errorf("invalid/unsupported date range, start: %v", q.Start)
 		}
 		startInt64 := startTime.UnixNano()
-		min = numeric.Int64ToFloat64(startInt64)
+		startFloat64 := numeric.Int64ToFloat64(startInt64)
+		min = &startFloat64
 	}
 	if !endTime.IsZero() {
 		if !isDateTimeWithinRange(endTime) {
@@ -154,10 +154,11 @@ func (q *DateRangeStringQuery) parseEndpoints(startTime, endTime time.Time) (*fl
 			return nil, nil, fmt.Errorf("invalid/unsupported date range, end: %v", q.End)
 		}
 		endInt64 := endTime.UnixNano()
-		max = numeric.Int64ToFloat64(endInt64)
+		endFloat64 := numeric.Int64ToFloat64(endInt64)
+		max = &endFloat64
 	}
 
-	return &min, &max, nil
+	return min, max, nil
 }
 
 func (q *DateRangeStringQuery) Validate() error {
